@@ -204,12 +204,13 @@ def rule_c09_terms(ctx, prog, rule="R19"):
         "mean_abs_err": ("div", ("sym", "l1_dist"), ("sym", "N")),
         "mean_sq_err": ("div", ("sym", "sq_l2_dist"), ("sym", "N")),
         "root_mean_sq_err": ("fn", "sqrt", ("sym", "mean_sq_err")),
-        "peak_signal_to_noise_ratio": ("mul", ("num", 10), ("fn", "log10", ("div", ("pow", ("sym", "maxv"), 2), ("sym", "mean_sq_err")))),
+        "peak_signal_to_noise_ratio": ("mul", ("num", 10), ("fn", "log10", ("div", ("pow", ("real", "maxv"), 2), ("sym", "mean_sq_err")))),
     }
     for name, spec in derived_specs.items():
         root = prog.method("DeviationExt", name)
         try:
-            t = routine_value(prog, root)
+            # maxv is any real number (the documented function only depends on maxv²); distances and errors are ≥ 0
+            t = routine_value(prog, root, param_syms={3: ("real", "maxv")} if name == "peak_signal_to_noise_ratio" else None)
             rec.equal("%s/formula" % name, root.where(), t, spec, "derived measure is not the documented function", name)
         except Unrecognised as ex:
             unrec(ctx, rule, "%s/formula" % name, root.where(), ex)
@@ -810,6 +811,7 @@ def rule_c07(ctx, prog, rule="R19"):
     rec = Recorder(ctx, rule)
     S = lambda n: prog.method("SummaryStatisticsExt", n)
     rule_west(ctx, prog, rule)
+    rule_moment_pipeline(ctx, prog, rule)
     # order 0 ⇒ exactly one(), order 1 ⇒ exactly zero()
     from .paths import enumerate_paths
     for name in ("central_moment", "central_moments"):
@@ -1414,3 +1416,160 @@ def rule_c18_quantiles(ctx, prog, rule="R13"):
                "collection uses %s, lookup uses %s" % (sorted(s_collect), sorted(s_lookup)), what="bulk quantile looks up an index it did not select")
     else:
         ctx.ob(rule, "quantiles_axis_mut/push-lookup-agree", False, inner.where(), "anchor not recognised: lane closure not found", what="anchor not recognised")
+
+
+# ======================================================================================= central-moment pipeline identity
+
+def _eval_small(t, env):
+    k = t[0]
+    if k == "sym":
+        return env[t[1]]
+    if k == "num":
+        return t[1]
+    if k == "add":
+        return _eval_small(t[1], env) + _eval_small(t[2], env)
+    if k == "sub":
+        return _eval_small(t[1], env) - _eval_small(t[2], env)
+    if k == "mul":
+        return _eval_small(t[1], env) * _eval_small(t[2], env)
+    raise Unrecognised("term %s" % show(t))
+
+
+def rule_moment_pipeline(ctx, prog, rule="R19"):
+    """central_moment(p) is computed as horner( [C(r,k)·m_{p−k}]_k , t ) with m_j the raw moments of the shifted data and
+    t = −m_1.  For this to be the p-th central moment as a polynomial identity in t (not only at t = 0, which floating point
+    never hits) the binomial row r must be p, coefficient k must pair with m_{p−k}, Horner must evaluate Σ c_k t^k, and m_j
+    must be Σ y^j / n.  Each fact is read off the MIR; the identity Σ_k C(r,k) y^{p−k} t^k = (y + t)^p is then checked for
+    p = 2..10 on the extracted row function."""
+    from math import comb
+    cc = prog.find("summary_statistics::means::central_moment_coefficients")
+    r = ds(cc.return_expr())
+    ok_shape = False
+    row = None
+    detail = "coefficients are `%s`" % fmt(r)[:160]
+    if r[0] == "call" and r[1] == "collect":
+        m = ds(r[3][0])
+        if m[0] == "call" and m[1] == "map" and len(m[3]) == 2:
+            z = ds(m[3][0])
+            cb, ups = closure_of(prog, m[3][1])
+            if z[0] == "call" and z[1] == "zip" and cb is not None:
+                binom, mom = ds(z[3][0]), ds(z[3][1])
+                # binomial side
+                if binom[0] == "call" and binom[1] == "new" and "IterBinomial" in binom[2]:
+                    K = Kernel(prog, cc, lambda e: ("sym", "L") if (isinstance(e, tuple) and e[0] == "call" and e[1] == "len"
+                                                                     and ds(e[3][0])[:2] == ("param", 1)) else None)
+                    try:
+                        row = K.term(binom[3][0])
+                    except Unrecognised:
+                        row = None
+                # moments side: reversed iteration over the parameter
+                rev_ok = mom[0] == "call" and mom[1] == "rev" and ds(mom[3][0])[0] == "call" and ds(mom[3][0])[1] == "iter" \
+                    and ds(ds(mom[3][0])[3][0])[:2] == ("param", 1)
+                ret, _ = closure_terms(prog, cb, {(2, "0"): ("sym", "binom"), (2, "1"): ("sym", "moment")})
+                prod_ok = canon_op(ret) == canon_op(("mul", ("sym", "binom"), ("sym", "moment")))
+                ok_shape = rev_ok and prod_ok and row is not None
+                detail = "coefficient k = C(row, k) · moments[len−1−k]" if ok_shape else \
+                    "reversed moments=%s product=%s row=%s" % (rev_ok, prod_ok, show(row) if row else None)
+    ctx.ob(rule, "central_moment_coefficients/shape", ok_shape, cc.where(), detail, what="anchor not recognised" if not ok_shape else "")
+    if ok_shape:
+        bad = []
+        for p in range(2, 11):
+            rr = _eval_small(row, {"L": p + 1})
+            # identity Σ_k C(rr,k) y^{p-k} t^k == (y+t)^p  ⇔  C(rr,k) == C(p,k) for k = 0..p
+            if any(comb(rr, k) != comb(p, k) for k in range(0, p + 1)):
+                bad.append((p, rr))
+        okr = not bad
+        key = "central_moment_coefficients/binomial-row" + ("" if okr else "/found:row=%s" % show(row))
+        ctx.ob(rule, key, okr, cc.where(),
+               "binomial row is len(moments) − 1 = p: Σ_k C(p,k)·m_{p−k}·t^k = (1/n)Σ(y+t)^p is an identity in t (checked p = 2..10)" if okr else
+               "the coefficients use binomial row `%s` with L = len(moments) = p+1, i.e. C(%d,k) for order p = %d: "
+               "Σ_k C(row,k)·m_{p−k}·t^k ≠ (1/n)Σ(y+t)^p unless t = 0. In floating point t = −mean(x − x̄) ≠ 0 (≈ u·|x̄|), so the correction "
+               "is wrong and central moments of order ≥ 3 lose accuracy proportionally to |mean|/spread"
+               % (show(row), bad[0][1], bad[0][0]), what="central-moment correction polynomial is not an identity")
+    # Horner: result' = coefficient + t·result over the reversed coefficients, from zero
+    hb = prog.find("summary_statistics::means::horner_method")
+    try:
+        tb = prog.tracked(hb)
+        lp = T.Loop(tb)
+        it = lp.iterator()
+        il, item, iinit = it
+        accs = [l for l in lp.carried if l != il and tb.local_name(l)]
+        if len(accs) != 1:
+            raise Unrecognised("%d loop-carried accumulators" % len(accs))
+        acc = accs[0]
+        phi = ds(lp.head_phi(acc))
+        item_d = ds(item)
+
+        def hleaf(e):
+            if e == phi:
+                return ("sym", "ACC")
+            if e == item_d:
+                return ("sym", "e0")
+            if isinstance(e, tuple) and e[0] == "param":
+                return ("sym", tb.local_name(e[1]) or "p%d" % e[1])
+            return None
+        Kh = Kernel(prog, tb, hleaf)
+        step = Kh.term(lp.step_expr(acc))
+        init = Kh.term(lp.init_expr(acc))
+        step_ok = canon_op(step) == canon_op(("add", ("sym", "e0"), ("mul", ("sym", "indeterminate"), ("sym", "ACC"))))
+        src = ds(iinit)
+        chain = []
+        while src[0] == "call" and src[1] in ("into_iter", "rev", "iter"):
+            chain.append(src[1])
+            src = ds(src[3][0])
+        rev_ok = chain.count("rev") == 1 and src[:2] == ("param", 1)
+        ret_ok = ds(tb.return_expr()) == phi
+        okh = step_ok and init == ("num", 0) and rev_ok and ret_ok
+        ctx.ob(rule, "horner_method/recurrence", okh, hb.where(),
+               "r ← c_k + t·r from 0 over the coefficients in reverse: evaluates Σ c_k t^k" if okh else
+               "Horner loop is init=%s step=%s reversed=%s returns-acc=%s" % (show(init), show(step), rev_ok, ret_ok),
+               what="polynomial not evaluated by Horner's rule")
+    except Unrecognised as ex:
+        unrec(ctx, rule, "horner_method/recurrence", hb.where(), ex)
+    # raw moments: m_0 = one(), m_1 = Σ/n, m_k = Σ x^k / n
+    mo = prog.find("summary_statistics::means::moments")
+    tm = prog.tracked(mo)
+    try:
+        lits = []
+        for bb in tm.live_blocks():
+            lv = vec_literal_values(tm, bb)
+            if lv is not None:
+                lits.append([ds(x) for x in lv])
+        m0 = len(lits) == 1 and len(lits[0]) == 1 and lits[0][0][1] == "one"
+        lpm = T.Loop(tm)
+        itm = lpm.iterator()
+        item = ds(itm[1])
+        extra = array_sum_leaf(prog, {1: "y"})
+        pushes = [(pb, t) for pb, t in tm.calls() if callee_name(t) == "push"]
+        first = [pb for pb, t in pushes if pb not in lpm.blocks]
+        inloop = [pb for pb, t in pushes if pb in lpm.blocks]
+        n_leaf = lambda e: ("sym", "N") if (isinstance(e, tuple) and e[0] == "call" and e[1] == "len" and ds(e[3][0])[:2] == ("param", 1)) else None
+
+        def leaf(e):
+            r_ = n_leaf(e)
+            if r_:
+                return r_
+            if isinstance(e, tuple) and e[0] == "call" and e[1] == "sum" and "ndarray" in e[2]:
+                x = ds(e[3][0])
+                if x[:2] == ("param", 1):
+                    return ("sym", "Σy")
+                if x[0] == "call" and x[1] in ("map", "mapv") and ds(x[3][0])[:2] == ("param", 1):
+                    cb2, ups2 = closure_of(prog, x[3][1])
+                    cr = ds(cb2.return_expr())
+                    if cr[0] == "call" and cr[1] == "powi" and cr[3][0][:2] == ("param", 2) and any(ds(u) == item for u in ups2):
+                        return ("sym", "Σy^k")
+            return None
+        Km = Kernel(prog, tm, leaf)
+        t1 = Km.term(tm.call_arg_exprs(first[0])[1]) if len(first) == 1 else None
+        tk = Km.term(tm.call_arg_exprs(inloop[0])[1]) if len(inloop) == 1 else None
+        rng = ds(itm[2])
+        while rng[0] == "call" and rng[1] == "into_iter":
+            rng = ds(rng[3][0])
+        rng_ok = rng[0] == "call" and rng[1] == "new" and "RangeInclusive" in rng[2] and ds(rng[3][0])[:1] == ("const",) and ds(rng[3][0])[2] == 2
+        okm = m0 and t1 == ("div", ("sym", "Σy"), ("sym", "N")) and tk == ("div", ("sym", "Σy^k"), ("sym", "N")) and rng_ok
+        ctx.ob(rule, "moments/raw-moments", okm, mo.where(),
+               "m_0 = one(), m_1 = Σy/n, m_k = Σy^k/n for k = 2..=order (pushed in order)" if okm else
+               "raw moments: m0 literal=%s m1=%s mk=%s range-from-2=%s" % (m0, show(t1) if t1 else None, show(tk) if tk else None, rng_ok),
+               what="raw moments are not Σ y^k / n")
+    except Unrecognised as ex:
+        unrec(ctx, rule, "moments/raw-moments", mo.where(), ex)
